@@ -40,6 +40,10 @@ type TaskSpec struct {
 	// Group, if not empty, nests the role inside an aggregator role of that name
 	// (consecutive tasks with the same Group share one aggregator): root -> group -> role.
 	Group string
+	// OmitCritical leaves the `critical` key out of the task role, so that the documented default
+	// applies ("in the absence of an explicit critical trait the assumed default is critical: true");
+	// Critical is then ignored by WriteWorkflow.
+	OmitCritical bool
 }
 
 // WorkflowSpec describes a generated workflow template.
@@ -178,7 +182,11 @@ func WriteWorkflow(wf WorkflowSpec) {
 		if t.Extra != "" {
 			rb.WriteString(t.Extra)
 		}
-		fmt.Fprintf(&rb, "    task:\n      load: %s\n      critical: %v\n", t.Class, t.Critical)
+		if t.OmitCritical {
+			fmt.Fprintf(&rb, "    task:\n      load: %s\n", t.Class)
+		} else {
+			fmt.Fprintf(&rb, "    task:\n      load: %s\n      critical: %v\n", t.Class, t.Critical)
+		}
 		if t.Trigger != "" {
 			fmt.Fprintf(&rb, "      trigger: %s\n      timeout: 10s\n", t.Trigger)
 		}
